@@ -42,7 +42,11 @@ pub fn compile_sources(
   let mut error_set = samlang_errors::ErrorSet::new();
   let mut parsed_sources = std::collections::HashMap::new();
   samlang_profiling::measure_time(enable_profiling, "Parsing", || {
-    for (module_reference, source) in &source_handles {
+    // Parse in module-name order, not in HashMap iteration order: parsing interns strings, and the
+    // ids of heap-allocated strings decide how such names compare (diagnostic contents and order).
+    let mut ordered_handles = source_handles.iter().collect::<Vec<_>>();
+    ordered_handles.sort_by_cached_key(|(module_reference, _)| module_reference.pretty_print(heap));
+    for (module_reference, source) in ordered_handles {
       let parsed = samlang_parser::parse_source_module_from_text(
         source,
         *module_reference,
